@@ -170,6 +170,26 @@ func c13(args []string) error {
 			}
 		}
 	}
+	// recorded events: Distance between point-like objects at lattice positions (centre-to-centre great-circle distance)
+	mkObj := []func(p geometry.Point) geojson.Object{
+		func(p geometry.Point) geojson.Object { return geojson.NewPoint(p) },
+		func(p geometry.Point) geojson.Object { return geojson.NewSimplePoint(p) },
+		func(p geometry.Point) geojson.Object { return geojson.NewFeature(geojson.NewPoint(p), "") },
+		func(p geometry.Point) geojson.Object { return geojson.NewMultiPoint([]geometry.Point{p}) },
+		func(p geometry.Point) geojson.Object { return geojson.NewRect(geometry.Rect{Min: p, Max: p}) },
+		func(p geometry.Point) geojson.Object {
+			return geojson.NewGeometryCollection([]geojson.Object{geojson.NewPoint(p)})
+		},
+	}
+	for k := 0; k < 2000; k++ {
+		ring := rings[rng.Intn(len(rings))]
+		ci, pi := rng.Intn(c13NP), rng.Intn(c13NP)
+		a, b := mkObj[rng.Intn(len(mkObj))](ring.pos(ci)), mkObj[rng.Intn(len(mkObj))](ring.pos(pi))
+		d, d2 := a.Distance(b), b.Distance(a)
+		steps := math.Round(d / stepU)
+		ev.Emit(obj{"op": "dist", "c": ci, "p": pi, "steps": int(steps), "err_ppm": int(math.Abs(d-steps*stepU) / stepU * 1e6),
+			"symmetric": math.Abs(d-d2) <= 1e-6*stepU, "ring": ring.name, "src": "rec"})
+	}
 	// recorded events: off-lattice probes at a fraction of the radius, serialisation, shape
 	nrec := 1500
 	if tier == "thorough" {
